@@ -15,6 +15,11 @@ C_SPEC = ("(fun c : " + G.CASE_TYPE + " => let '(u, o, root, t, d, ob) := c in "
           "| IErr _ => spec_check u o root t d None end))")
 
 
+def pyrun_reset():
+    from harness import pyrun
+    pyrun.reset_caches()
+
+
 class Case:
     __slots__ = ("uidx", "u", "opts", "root", "t", "data", "kind", "payload", "extra", "coq", "obs", "tag")
 
@@ -104,6 +109,9 @@ class Producer:
                     b = G.base_kind(t)
                     if b and not G.has_special(t):
                         root = G.gen_constraints(rng, b)
+                # typing.Union[A, B] == Union[B, A]: apischema's lru caches would serve the method compiled for the
+                # order seen first in this process (recorded finding KF-C13-union-order-cache); isolate every type
+                pyrun_reset()
                 try:
                     U.type(t)
                 except Exception as e:
@@ -132,6 +140,7 @@ class Producer:
                     for rep in range(self.matrix):
                         opts = (self.make_opts or (lambda r: G.gen_opts(r, self.coerce)))(rng)
                         opts_gen = dict(opts, alias_fn=G.ALIASERS[opts["aliaser"]][0])
+                        pyrun_reset()
                         t = ("obj", cid)
                         r = rng.random()
                         if r < 0.2:
